@@ -131,6 +131,8 @@ class Yielder:
         self.table = {}          # point -> callable
         self.busy = False
         self.fired = []
+        self.after = None        # callable(point): called when the actions injected at the point are done, i.e.
+                                 # immediately before the access itself is performed
 
     def __call__(self, real, name, kind):
         if self.tracker is None or self.busy:
@@ -146,6 +148,8 @@ class Yielder:
                 f()
             finally:
                 self.busy = False
+        if self.after is not None:
+            self.after(pt)
 
 
 def install_proxies(dist, self_urn):
@@ -298,7 +302,7 @@ class _NetSocket:
 
     def sendall(self, data):
         st = self.net.link.get((self.src, self.dst), "up")
-        self.net._deliver(self.src, self.dst, bytes(data))
+        self.net._deliver(self.src, self.dst, bytes(data), sender_ok=(st != "fail"))
         if st == "fail":
             raise OSError("scripted failure after delivery")
 
@@ -445,12 +449,12 @@ class Net:
             return [rec_key(BoboRunSerial.from_json_str(x)) for x in d.get(key, [])]
         return dict(urn=urn, type=int(typ), flags=int(flags), c=recs("completed"), h=recs("halted"), u=recs("updated"))
 
-    def _deliver(self, src, dst, data):
+    def _deliver(self, src, dst, data, sender_ok=True):
         snd, rcv = self.nodes[src], self.nodes[dst]
         m = self.decode(snd.crypto, data)
         rec = dict(kind="msg", src=src, dst=dst, t=self.clock.cur, type=m["type"], flags=m["flags"],
                    c=m["c"], h=m["h"], u=m["u"], seen=snd.snap_seen if m["type"] == RESYNC else len(snd.emitted),
-                   dec_t=snd.iter_now, src_gen=snd.gen, dst_gen=rcv.gen, err=None)
+                   dec_t=snd.iter_now, src_gen=snd.gen, dst_gen=rcv.gen, err=None, sender_ok=sender_ok)
         self.wire.append(rec)
         self.events.append(("wire", len(self.wire) - 1))
         saved = self.clock.cur
@@ -493,15 +497,9 @@ class Net:
         self.events.append(("iter-begin", k))
         raw = nd.yielder.tracker
         hook_events = self.events
-
-        orig_point = raw.point
-
-        def point(real, name, kind):
-            pt = orig_point(real, name, kind)
-            if pt is not None:
-                hook_events.append(("point", k, pt[0], nd.peer_of_index[pt[1]]))
-            return pt
-        raw.point = point
+        # ("point", k, name, destination) is logged when the access is performed: whatever was injected at the point
+        # precedes it in the trace
+        nd.yielder.after = lambda pt: hook_events.append(("point", k, pt[0], nd.peer_of_index[pt[1]]))
         self.src_stack.append(k)
         try:
             with self._Patched(self):
@@ -512,6 +510,7 @@ class Net:
             nd.last_trace = [(w, nd.peer_of_index[i]) for w, i in raw.trace]
             nd.yielder.tracker = None
             nd.yielder.table = {}
+            nd.yielder.after = None
             self.events.append(("iter-end", k))
 
     def set_link(self, i, j, state):
